@@ -320,6 +320,7 @@ func instrumentFile(p *packages.Package, f *ast.File, src []byte, root string) [
 		return true
 	})
 
+	keepImports := map[string]string{} // local package name -> path: packages whose only use may have been rewritten away
 	commOf := map[ast.Node]bool{} // send statements / receive expressions that are the communication of a select case
 	ast.Inspect(f, func(n ast.Node) bool {
 		switch x := n.(type) {
@@ -417,6 +418,14 @@ func instrumentFile(p *packages.Package, f *ast.File, src []byte, root string) [
 			if pk, isPkg := p.TypesInfo.Uses[identOf(sel.X)].(*types.PkgName); isPkg && pk.Imported().Path() == "time" && (sel.Sel.Name == "AfterFunc" || sel.Sel.Name == "NewTimer" || sel.Sel.Name == "NewTicker" || sel.Sel.Name == "Tick") {
 				summary.Unsupported = append(summary.Unsupported, "time."+sel.Sel.Name+"@"+rel(x.Pos()))
 			}
+			if pk, isPkg := p.TypesInfo.Uses[identOf(sel.X)].(*types.PkgName); isPkg && !inConsumed(off(x.Pos()), off(x.End())) {
+				if (pk.Imported().Path() == "time" && sel.Sel.Name == "Sleep") || (pk.Imported().Path() == "runtime" && sel.Sel.Name == "Gosched") {
+					// only the callee is replaced; the package stays imported and
+					// used through the blank use appended to the file
+					edits = append(edits, edit{off: off(sel.Pos()), end: off(sel.End()), text: rtName + "." + sel.Sel.Name})
+					keepImports[pk.Name()] = pk.Imported().Path()
+				}
+			}
 			s := p.TypesInfo.Selections[sel]
 			if s == nil || s.Kind() != types.MethodVal {
 				return true
@@ -496,6 +505,13 @@ func instrumentFile(p *packages.Package, f *ast.File, src []byte, root string) [
 		}
 		return true
 	})
+	for name, path := range keepImports {
+		fn := "Sleep"
+		if path == "runtime" {
+			fn = "Gosched"
+		}
+		edits = append(edits, edit{off: len(src), text: fmt.Sprintf("\nvar _ = %s.%s\n", name, fn)})
+	}
 	return edits
 }
 
